@@ -47,6 +47,8 @@ class TEnv:
         self.faults = 0
         self.injected = []
         self.time = 0.0
+        self.refuse = {}            # host -> k: the TCP connect to it is refused (ConnectError) - a slow failure: it is reported only
+                                    # once k other threads are parked on an event (queued in the pool); failure paths under threads
 
     def _mc_state(self):
         return "tenv"
@@ -57,6 +59,16 @@ class TEnv:
 
     def sync_point(self, op):
         self.world.point(f"net:{op.kind}")
+        if op.kind == "connect_tcp" and self.refuse.get(op.args.get("host")):
+            k = self.refuse[op.args.get("host")]
+            w = self.world
+            me = w.current
+
+            def gate():
+                return sum(1 for t in w.threads if t is not me and not t.done and t.blocked_on is not None and t.blocked_on[0] == "event") >= k \
+                    or all(t.done or t.blocked_on is not None for t in w.threads if t is not me)
+            while not gate():
+                w.block(("gate", gate))
         if op.kind == "read":
             tr = op.tr
             while not tr.closed and not tr.inbound and not tr.peer_eof:
@@ -66,8 +78,10 @@ class TEnv:
         self.time += s
 
     def immediate(self, op):
-        if op.kind == "read":
-            return ("ok", None)
+        if op.kind == "connect_tcp" and op.args.get("host") in self.refuse:
+            from httpcore import ConnectError
+            self.injected.append((op.i, "ConnectError"))
+            return ("raise", ConnectError("simulated: connection refused"))
         return ("ok", None)
 
 
@@ -122,6 +136,8 @@ class TWorld:
         if kind == "read":
             tr = b[1]
             return tr.closed or bool(tr.inbound) or tr.peer_eof
+        if kind == "gate":
+            return bool(b[1]())
         return True
 
     # ------------------------------------------------------------------ scheduling
